@@ -11,7 +11,9 @@ Every model states the library's documented behaviour only (nothing about quante
   a[:, j] = v                in-place column store; v is a scalar, a length-1 or a length-rows 1-D array (ValueError otherwise);
                              the right-hand side is read BEFORE the store (numpy copies on assignment)
   a[:, [j0, j1, ..]]         advanced indexing returns a NEW array (copy), a[:, j] / a[lo:hi] basic indexing returns a VIEW
-  copy.deepcopy(x)           nested lists are rebuilt, arrays are copied (new objects, equal contents), None stays None
+  copy.deepcopy(x)           nested lists are rebuilt, arrays are copied (new objects, equal contents; an object occurring twice is rebuilt once), None stays None
+  copy.copy(x)               list / dict: NEW outer container, the SAME element objects; ndarray: new array with copied data; None stays None
+  id(x)                      object identity as an integer (distinct live objects have distinct ids)
   a.astype(dt) / a.dtype     (arrays with a tracked storage dtype) new array of dtype dt (None = float64); values converted by cast_fn
   np.asarray(obj)            obj.__array__() for an object implementing the array protocol
   set(xs) (only its len)     number of distinct elements
@@ -310,22 +312,38 @@ def install(reg):
 
     M[np.concatenate] = m_concatenate
 
-    # ---- deepcopy -----------------------------------------------------------------------------
-    def deep(x):
+    # ---- copy.deepcopy / copy.copy: EXACT identity semantics -------------------------------------------------
+    # deepcopy(x): every mutable object reachable from x is rebuilt ONCE (the memo keeps the sharing structure of the source:
+    # an object that occurs twice in x occurs twice - as ONE new object - in the result); immutable atoms stay themselves.
+    # copy(x): a NEW outermost container holding the VERY SAME element objects (list / dict / tuple is itself); for an ndarray
+    # a new array with a copy of the data (ndarray.__copy__); None and other immutable atoms stay themselves.
+    def deep(x, memo=None):
+        memo = {} if memo is None else memo
+        if isinstance(x, (list, dict, SymArr, np.ndarray)) and id(x) in memo:
+            return memo[id(x)][0]
         if isinstance(x, list):
-            return [deep(e) for e in x]
+            r = []
+            memo[id(x)] = (r, x)
+            r.extend(deep(e, memo) for e in x)
+            return r
         if isinstance(x, tuple):
-            return tuple(deep(e) for e in x)
+            return tuple(deep(e, memo) for e in x)
         if isinstance(x, dict):
-            return {k: deep(v) for k, v in x.items()}
+            r = {}
+            memo[id(x)] = (r, x)
+            r.update({k: deep(v, memo) for k, v in x.items()})
+            return r
         if isinstance(x, SymArr):
             r = freeze(x)
             r.pylist = x.pylist
+            memo[id(x)] = (r, x)
             return r
         if isinstance(x, Sym) or x is None or isinstance(x, (int, float, str, bool)):
             return x
         if isinstance(x, np.ndarray):
-            return x.copy()
+            r = x.copy()
+            memo[id(x)] = (r, x)
+            return r
         raise OutOfSubset(f"deepcopy of {type(x).__name__}")
 
     def m_deepcopy(interp, x, memo=None):
@@ -334,6 +352,37 @@ def install(reg):
         return deep(x)
 
     M[_copy.deepcopy] = m_deepcopy
+
+    def m_copy(interp, x):
+        if isinstance(x, SymArr):
+            if x.pylist:
+                vals = interp.iter_values(x)
+                if vals is None:
+                    raise OutOfSubset("copy.copy of a symbolic-length list")
+                return list(vals)
+            return freeze(x)  # ndarray.__copy__: new array object, copied data
+        if isinstance(x, list):
+            return list(x)  # new list, the same element objects
+        if isinstance(x, dict):
+            return dict(x)
+        if isinstance(x, (tuple, Sym)) or x is None or isinstance(x, (int, float, str, bool)):
+            return x
+        if isinstance(x, np.ndarray):
+            return x.copy()
+        raise OutOfSubset(f"copy.copy of {type(x).__name__}")
+
+    M[_copy.copy] = m_copy
+
+    # ---- id(x): an integer that identifies the OBJECT for as long as it is alive (two live objects never have the same id).
+    # Abstract arrays / lists are real python objects inside the interpreter (TRUSTED: identity = allocation identity), so the
+    # interpreter-level id has exactly this contract; the objects a program asks the id of are kept alive for the rest of the path.
+    import builtins as _bi
+
+    def m_id(interp, x):
+        interp.ctx.ghost.setdefault("id_keepalive", []).append(x)
+        return id(x)
+
+    M[_bi.id] = m_id
 
     # ---- set(xs): only len() is supported on the result -----------------------------------------
     def c_set(interp, xs=()):
